@@ -345,3 +345,26 @@ func (r *GCRoles) waitSitesInPublish() []ssa.Instruction {
 	}
 	return instrsOf(Callers([]*ssa.Function{r.Publish}, r.Wait))
 }
+
+// gcSafety runs the structural safety rules of the GoChannel (decided as
+// C07 / C11 in their own right) under another property: a deadlock, a data
+// race on the maps, a send on a closed channel or a lost hand-off breaks every
+// property that is stated over GoChannel deliveries, so each of them decides
+// these preconditions too. Instances already reported by the property's own
+// rules are not repeated.
+func gcSafety(c *Check, P string, r *GCRoles) {
+	S := P + ".S"
+	c07SendCloseExclusion(c, S, r)
+	c07CloseOnce(c, S, r)
+	c07WaitGroup(c, S, r)
+	c07ClosedChecks(c, S, r)
+	c07Persisted(c, S, r)
+	c07LockHolders(c, S, r)
+	c07RemoveExact(c, S, r)
+	c07TeardownOrder(c, S, r)
+	c07LockOrder(c, S, r)
+	r.LA.ReportLeaks(c, S, r.Funcs)
+	c04LookupCopy(c, S, r)
+	c11PublishSection(c, S, r)
+	c11Handoff(c, S, r)
+}
